@@ -2088,7 +2088,11 @@ def _compute_arguments_dict_matching_score(args: Any, ref_args: Any) -> float:
         if not ref_args.search(args):
             return 0.0
     elif isinstance(ref_args, ComparisonExpression):
-        return ref_args.compare(args)
+        try:
+            return float(ref_args.compare(args))
+        except ColangValueError:
+            # A value that cannot be compared does not fulfil the comparison
+            return 0.0
     elif not isinstance(ref_args, type(args)):
         return 0.0
     elif isinstance(ref_args, dict):
